@@ -54,7 +54,7 @@ fn small_cfg(rng: &mut Rng, rate: RateKind) -> (usize, usize, usize) {
     };
     let (k, r) = gen::config(rng, class, rate);
     let (k, r) = if k.max(r) > 700 { gen::config(rng, Class::Small, rate) } else { (k, r) };
-    (k, r, *rng.pick(&[2usize, 30, 64, 66, 128, 192]))
+    (k, r, *rng.pick(&[64usize, 66, 100, 128, 130, 192]))
 }
 
 fn plan(rng: &mut Rng) -> Vec<Step> {
@@ -87,9 +87,11 @@ fn plan(rng: &mut Rng) -> Vec<Step> {
 struct StepObs {
     what: String,
     stats: Stats,
-    /// largest single allocation of a fresh construction of this configuration
+    /// allocation profile of a fresh construction of the step's configuration
+    fresh: Stats,
+    /// working-space need (filled in by `history` from both scales)
     need: usize,
-    /// max `need` over the configurations this working space held before the step
+    /// max need over the configurations this working space held before the step
     held_before: usize,
     /// padded bytes of one shard at this scale
     shard: usize,
@@ -98,7 +100,8 @@ struct StepObs {
     same_config_as_prev_round: bool,
 }
 
-fn fresh_need(api: Api, k: usize, r: usize, size: usize, encoder: bool) -> usize {
+/// Allocation profile of a fresh construction of this configuration.
+fn fresh_profile(api: Api, k: usize, r: usize, size: usize, encoder: bool) -> Stats {
     let (_, st) = measure(|| {
         if encoder {
             drop(codec::make_enc(api, k, r, size, None));
@@ -106,7 +109,29 @@ fn fresh_need(api: Api, k: usize, r: usize, size: usize, encoder: bool) -> usize
             drop(codec::make_dec(api, k, r, size, None));
         }
     });
-    st.largest
+    st
+}
+
+/// Working-space need of a configuration at both scales, calibrated from the
+/// crate's own fresh constructions: the allocations whose size differs between
+/// the two scales are the shard-proportional ones (the shard buffer); the
+/// need at a scale is the largest of them (0 if nothing scales). Constant-size
+/// allocations (bitmaps, boxes, rounding slack that is the same at both scales)
+/// do not count as working space.
+fn needs(p1: &Stats, p8: &Stats) -> (usize, usize) {
+    if p1.count != p8.count || p1.count as usize > crate::alloc::SEQ_LEN {
+        // different allocation structure at the two scales: fall back to the
+        // largest single allocation
+        return (p1.largest, p8.largest);
+    }
+    let mut n = (0usize, 0usize);
+    for i in 0..p1.count as usize {
+        if p1.seq[i] != p8.seq[i] {
+            n.0 = n.0.max(p1.seq[i]);
+            n.1 = n.1.max(p8.seq[i]);
+        }
+    }
+    n
 }
 
 fn execute(plan: &[Step], scale: usize, data_seed: u64, encoder: bool) -> Result<Vec<StepObs>, String> {
@@ -114,7 +139,6 @@ fn execute(plan: &[Step], scale: usize, data_seed: u64, encoder: bool) -> Result
     let mut enc: Option<Box<dyn DynEnc>> = None;
     let mut dec: Option<Box<dyn DynDec>> = None;
     let mut cur = (Api::Wrapper, 0usize, 0usize, 0usize);
-    let mut held = 0usize;
     let mut obs = Vec::new();
     let mut last_round_cfg: Option<(usize, usize, usize)> = None;
     for st in plan {
@@ -127,12 +151,22 @@ fn execute(plan: &[Step], scale: usize, data_seed: u64, encoder: bool) -> Result
                     dec = Some(codec::make_dec(*api, *k, *r, size, None).map_err(|e| e.to_string())?);
                 }
                 cur = (*api, *k, *r, size);
-                held = fresh_need(*api, *k, *r, size, encoder);
+                obs.push(StepObs {
+                    what: format!("new {}({k},{r},{size})", api.name()),
+                    stats: Stats::default(),
+                    fresh: fresh_profile(*api, *k, *r, size, encoder),
+                    need: 0,
+                    held_before: 0,
+                    shard: size.div_ceil(64) * 64,
+                    is_round: false,
+                    addr: 0,
+                    same_config_as_prev_round: false,
+                });
                 last_round_cfg = None;
             }
             Step::Reset(k, r, s) => {
                 let size = s * scale;
-                let need = fresh_need(cur.0, *k, *r, size, encoder);
+                let fresh = fresh_profile(cur.0, *k, *r, size, encoder);
                 let (res, stats) = measure(|| {
                     if encoder {
                         enc.as_mut().unwrap().reset(*k, *r, size)
@@ -144,20 +178,20 @@ fn execute(plan: &[Step], scale: usize, data_seed: u64, encoder: bool) -> Result
                 obs.push(StepObs {
                     what: format!("reset({k},{r},{size})"),
                     stats,
-                    need,
-                    held_before: held,
+                    fresh,
+                    need: 0,
+                    held_before: 0,
                     shard: size.div_ceil(64) * 64,
                     is_round: false,
                     addr: 0,
                     same_config_as_prev_round: false,
                 });
-                held = held.max(need);
                 cur = (cur.0, *k, *r, size);
                 last_round_cfg = None;
             }
             Step::Recycle(api, k, r, s) => {
                 let size = s * scale;
-                let need = fresh_need(*api, *k, *r, size, encoder);
+                let fresh = fresh_profile(*api, *k, *r, size, encoder);
                 let (res, stats) = measure(|| -> Result<(), String> {
                     if encoder {
                         let work = enc.take().unwrap().into_work();
@@ -172,14 +206,14 @@ fn execute(plan: &[Step], scale: usize, data_seed: u64, encoder: bool) -> Result
                 obs.push(StepObs {
                     what: format!("into_parts -> {}::new({k},{r},{size},Some(work))", api.name()),
                     stats,
-                    need,
-                    held_before: held,
+                    fresh,
+                    need: 0,
+                    held_before: 0,
                     shard: size.div_ceil(64) * 64,
                     is_round: false,
                     addr: 0,
                     same_config_as_prev_round: false,
                 });
-                held = held.max(need);
                 cur = (*api, *k, *r, size);
                 last_round_cfg = None;
             }
@@ -214,8 +248,9 @@ fn execute(plan: &[Step], scale: usize, data_seed: u64, encoder: bool) -> Result
                 obs.push(StepObs {
                     what: format!("round on {}({k},{r},{size})", api.name()),
                     stats,
+                    fresh: Stats::default(),
                     need: 0,
-                    held_before: held,
+                    held_before: 0,
                     shard: size.div_ceil(64) * 64,
                     is_round: true,
                     addr,
@@ -246,13 +281,32 @@ fn history(case_seed: u64, out: &mut CaseOut, encoder: bool) {
             return;
         }
     };
+    // calibrate need / held from the fresh-construction profiles at both scales
+    let (mut a, mut b) = (a, b);
+    let mut held = (0usize, 0usize);
+    for (s1, s8) in a.iter_mut().zip(b.iter_mut()) {
+        if s1.is_round {
+            continue;
+        }
+        let (n1, n8) = needs(&s1.fresh, &s8.fresh);
+        s1.need = n1;
+        s8.need = n8;
+        s1.held_before = held.0;
+        s8.held_before = held.1;
+        held = (held.0.max(n1), held.1.max(n8));
+    }
     let mut prev_addr: [usize; 2] = [0, 0];
     let mut nongrowing = 0;
     let mut rounds = 0;
     for (s1, s8) in a.iter().zip(&b) {
+        if s1.what.starts_with("new ") {
+            prev_addr = [0, 0];
+            continue;
+        }
         out.evals += 1;
         let delta = s8.stats.bytes.saturating_sub(s1.stats.bytes);
-        let class = if s1.is_round { "rounds" } else if s1.need <= s1.held_before && s8.need <= s8.held_before { "non-growing steps" } else { "growing steps" };
+        let no_growth = !s1.is_round && s1.need <= s1.held_before && s8.need <= s8.held_before;
+        let class = if s1.is_round { "rounds" } else if no_growth { "non-growing steps" } else { "growing steps" };
         out.add(format!("bytes allocated in {class} at S"), s1.stats.bytes);
         out.add(format!("bytes allocated in {class} at 8S"), s8.stats.bytes);
         out.add(format!("allocation calls in {class}"), s1.stats.count + s8.stats.count);
@@ -261,7 +315,7 @@ fn history(case_seed: u64, out: &mut CaseOut, encoder: bool) {
             if delta >= s1.shard as u64 {
                 out.violate(
                     format!("C17:{kind}:round-allocates"),
-                    format!("{}: allocated {} bytes at shard size S and {} at 8S (a shard is {} / {} bytes); plan {descr:?}", s1.what, s1.stats.bytes, s8.stats.bytes, s1.shard, s8.shard),
+                    format!("{}: allocated {} bytes at shard size S and {} at 8S (a shard is {} / {} bytes): the allocation grows with the shard size; plan {descr:?}", s1.what, s1.stats.bytes, s8.stats.bytes, s1.shard, s8.shard),
                 );
                 return;
             }
@@ -279,14 +333,15 @@ fn history(case_seed: u64, out: &mut CaseOut, encoder: bool) {
         } else {
             // reset / hand-over: judged only when the configuration needs no
             // more working space than is already held (at both scales)
-            let no_growth = s1.need <= s1.held_before && s8.need <= s8.held_before;
             if no_growth {
                 nongrowing += 1;
-                let whole_again = |s: &StepObs| s.need >= 1024 && s.stats.bytes as usize >= s.need;
+                // shard-proportional: grows with the shard size, or allocates
+                // the whole (scaling) working space again
+                let whole_again = |s: &StepObs| s.need >= 1024 && s.stats.largest >= s.need;
                 if delta >= s1.shard as u64 || whole_again(s1) || whole_again(s8) {
                     out.violate(
                         format!("C17:{kind}:non-growing-step-allocates"),
-                        format!("{}: needs {} bytes, {} already held, yet it allocated {} bytes at S and {} at 8S; plan {descr:?}", s1.what, s1.need, s1.held_before, s1.stats.bytes, s8.stats.bytes),
+                        format!("{}: needs {} / {} bytes of working space at S / 8S, {} / {} already held, yet it allocated {} bytes at S and {} at 8S (largest single allocation {} / {}); plan {descr:?}", s1.what, s1.need, s8.need, s1.held_before, s8.held_before, s1.stats.bytes, s8.stats.bytes, s1.stats.largest, s8.stats.largest),
                     );
                     return;
                 }
